@@ -333,6 +333,136 @@ func RandExclude(r *hlib.SplitMix64, a uint32, k int, n int, withBad bool) []Exc
 	return ls
 }
 
+func netLine(r *hlib.SplitMix64, b uint32, p int) ExclLine {
+	// the address part may be any address of the block (the parser masks it), or the bare host form for /32
+	w := b
+	if p < 32 && r.Intn(3) == 0 {
+		w = b | (uint32(r.Uint64()) & ((uint32(1) << uint(32-p)) - 1))
+	}
+	text := fmt.Sprintf("%s/%d", Dotted(w), p)
+	if p == 32 && r.Intn(3) != 0 {
+		text = Dotted(w)
+	}
+	text = strings.Repeat(" ", r.Intn(3)) + text + strings.Repeat(" ", r.Intn(3))
+	if r.Intn(6) == 0 {
+		text += "# note"
+	}
+	return ExclLine{Text: text, Meaning: "net", Base: w, Prefix: p}
+}
+
+// RandExcludeNested builds an exclusion file out of FAMILIES of related entries inside the target net a/k
+// (k <= 28): chains of 2..4 nested blocks sharing the network address / sharing the last address / strictly
+// interior, in narrow-first, wide-first and shuffled order; duplicates; host-then-net and net-then-host with
+// the host at the first, the last or an interior address; adjacent siblings with or without their parent.
+// The widest block of every family lies inside the target, so the scanned range reaches into every
+// difference between a narrower and a wider entry.
+func RandExcludeNested(r *hlib.SplitMix64, a uint32, k int, families int) []ExclLine {
+	host := (uint32(1) << uint(32-k)) - 1
+	base := a &^ host
+	var ls []ExclLine
+	order := func(f []ExclLine) []ExclLine {
+		switch r.Intn(3) {
+		case 0: // as built: narrow first
+		case 1: // wide first
+			for i, j := 0, len(f)-1; i < j; i, j = i+1, j-1 {
+				f[i], f[j] = f[j], f[i]
+			}
+		default:
+			for i := len(f) - 1; i > 0; i-- {
+				j := r.Intn(i + 1)
+				f[i], f[j] = f[j], f[i]
+			}
+		}
+		return f
+	}
+	for fi := 0; fi < families; fi++ {
+		// the widest block of the family: prefix pw in [k, 30], somewhere inside the target
+		pw := k + r.Intn(31-k)
+		wsize := uint32(1) << uint(32-pw)
+		nb := base + (uint32(r.Uint64())&host)&^(wsize-1)
+		var f []ExclLine
+		switch r.Intn(7) {
+		case 0, 1: // chain sharing the network address (narrow ... wide)
+			ps := []int{pw}
+			for p := pw; len(ps) < 2+r.Intn(3) && p < 32; {
+				p += 1 + r.Intn(32-p)
+				ps = append(ps, p)
+			}
+			for i := len(ps) - 1; i >= 0; i-- {
+				f = append(f, netLine(r, nb, ps[i]))
+			}
+			if len(f) == 1 {
+				f = append([]ExclLine{netLine(r, nb, 32)}, f...)
+			}
+		case 2: // chain sharing the last address
+			last := nb + wsize - 1
+			ps := []int{pw}
+			for p := pw; len(ps) < 2+r.Intn(3) && p < 32; {
+				p += 1 + r.Intn(32-p)
+				ps = append(ps, p)
+			}
+			for i := len(ps) - 1; i >= 0; i-- {
+				sz := uint32(1) << uint(32-ps[i])
+				f = append(f, netLine(r, last&^(sz-1), ps[i]))
+			}
+		case 3: // strictly interior narrower block(s)
+			f = append(f, netLine(r, nb, pw))
+			for j := 0; j < 1+r.Intn(2) && pw < 31; j++ {
+				p := pw + 2 + r.Intn(31-pw)
+				if p > 32 {
+					p = 32
+				}
+				sz := uint32(1) << uint(32-p)
+				inner := nb + sz + (uint32(r.Uint64())%(wsize-2*sz+1))&^(sz-1)
+				f = append([]ExclLine{netLine(r, inner, p)}, f...)
+			}
+		case 4: // host and net: host at the first, the last or an interior address
+			h := nb
+			switch r.Intn(3) {
+			case 1:
+				h = nb + wsize - 1
+			case 2:
+				h = nb + uint32(r.Uint64())%wsize
+			}
+			f = []ExclLine{netLine(r, h, 32), netLine(r, nb, pw)}
+		case 5: // duplicates
+			l := netLine(r, nb, pw)
+			f = []ExclLine{l, netLine(r, nb, pw)}
+			if r.Bool() {
+				f = append(f, netLine(r, nb, 32))
+			}
+		default: // adjacent siblings, with or without the parent
+			if pw == 32 {
+				pw = 31
+				nb &^= 1
+				wsize = 2
+			}
+			half := wsize / 2
+			if half == 0 {
+				half = 1
+			}
+			f = []ExclLine{netLine(r, nb, pw+1), netLine(r, nb+half, pw+1)}
+			if r.Bool() {
+				f = append(f, netLine(r, nb, pw))
+			}
+			if r.Intn(3) == 0 && nb+wsize > nb {
+				f = append(f, netLine(r, nb+wsize, pw)) // the neighbour of the parent
+			}
+		}
+		ls = append(ls, order(f)...)
+		// unrelated material between families
+		switch r.Intn(5) {
+		case 0:
+			ls = append(ls, ExclLine{Text: "", Meaning: "skip"})
+		case 1:
+			ls = append(ls, ExclLine{Text: "# " + Dotted(uint32(r.Uint64())), Meaning: "skip"})
+		case 2:
+			ls = append(ls, netLine(r, uint32(r.Uint64()), 8+r.Intn(25)))
+		}
+	}
+	return ls
+}
+
 func JoinLines(ls []ExclLine) string {
 	var sb strings.Builder
 	for _, l := range ls {
